@@ -212,22 +212,31 @@ Proof.
   assert (Hsz : mr_sz r = 0%Z) by lia.
   destruct (hit && negb (s_final_eof (mr_s r))).
   { unfold merr. cbn [fst snd]. split; [lia|discriminate]. }
-  unfold mbind at 1. unfold mbind at 2. unfold alloc at 1. cbn [fst snd].
+  match goal with |- context [mbind (mbind (alloc 8) ?g) ?k] => set (TB := mbind (alloc 8) g); set (K := k) end.
   destruct (N.eqb_spec (len b) 0) as [Hb|Hb].
-  { unfold mret. cbn [fst snd]. split; [lia|]. unfold mr_inv. cbn [mr_with mr_sz mr_tl mr_s s_final_eof].
+  { assert (HTB : TB = (Ok None, 8)).
+    { unfold TB, mbind, alloc, mret. cbn [fst snd]. destruct (N.eqb_spec (len b) 0); [reflexivity|contradiction]. }
+    rewrite HTB. unfold mbind, K, mret. cbn [fst snd]. split; [lia|]. unfold mr_inv. cbn [mr_with mr_sz mr_tl mr_s s_final_eof].
     rewrite mr_avail_with. unfold mr_avail in *. repeat split; lia. }
   set (u := be_dec (takeN 8 b ++ repeat 0 (N.to_nat (8 - N.min 8 (len b)))) mod 18446744073709551616).
   destruct (fixed && (9223372036854775807 <? u)) eqn:Ef.
-  { unfold merr. cbn [fst snd]. split; [lia|discriminate]. }
-  unfold mret at 1. cbn [fst snd].
+  { assert (HTB : TB = (Err ESInvalidLength, 8)).
+    { unfold TB, mbind, alloc, mret, merr. cbn [fst snd]. destruct (N.eqb_spec (len b) 0); [contradiction|].
+      cbv zeta. fold u. rewrite Ef. reflexivity. }
+    rewrite HTB. unfold mbind. cbn [fst snd]. split; [lia|discriminate]. }
+  assert (HTB : TB = (Ok (Some (to_int64 u, dropN 8 b)), 8)).
+  { unfold TB, mbind, alloc, mret, merr. cbn [fst snd]. destruct (N.eqb_spec (len b) 0); [contradiction|].
+    cbv zeta. fold u. rewrite Ef. reflexivity. }
+  rewrite HTB. unfold mbind, K. cbn [fst snd].
   assert (Hnn : fixed = true -> (0 <= to_int64 u)%Z).
   { intros ->. cbn [andb] in Ef. apply N.ltb_ge in Ef. apply to_int64_nonneg.
     unfold u. rewrite N.mod_mod by lia. exact Ef. }
   pose proof (mr_tail_spec n r chunks (mr_eof r || hit) (to_int64 u) (dropN 8 b) (mr_read_loop fixed (S f) n) Hn) as HT.
   assert (HT' : tpost n (len (dropN 8 b) + len (concat chunks)) (s_final_eof (mr_s r)) (to_int64 u)
                   (mr_tail n r chunks (mr_eof r || hit) (to_int64 u) (dropN 8 b) (mr_read_loop fixed (S f) n))).
-  { apply HT; try lia.
-    - destruct (Z.le_gt_cases 0 (to_int64 u)); lia.
+  { assert (G1 : (0 <= mr_sz r)%Z) by lia.
+    assert (G2 : (mr_sz r <= to_int64 u \/ to_int64 u < 0)%Z) by lia.
+    apply (HT G1 G2).
     - intros He Hlb Hlt.
       pose proof (mr_loop_known fixed f n (mr_with r chunks (dropN 8 b) (mr_eof r || hit) (to_int64 u) (mr_sz r) false)) as HK.
       rewrite mr_avail_with in HK. cbn [mr_with mr_s s_final_eof mr_tl] in HK.
@@ -236,7 +245,8 @@ Proof.
   destruct (mr_tail n r chunks (mr_eof r || hit) (to_int64 u) (dropN 8 b) (mr_read_loop fixed (S f) n)) as [res al].
   cbn [fst snd] in *. destruct HT' as [T1 T2]. split; [lia|].
   destruct res as [[x r']| |]; auto.
-  - destruct T2 as (A1 & A2 & A3 & A4). unfold mr_avail in *.
+  - destruct T2 as (A1 & A2 & A3 & A4).
+    assert (Hav : len b + len (concat chunks) = mr_avail r) by (unfold mr_avail; lia).
     split; [exact A1|]. split; [exact A2|]. split; [lia|].
     destruct x as [d|]; auto. unfold rd_item_post in A4. destruct A4 as (B1 & B2 & B3).
     split; [intros; lia|]. split; [lia|].
@@ -259,6 +269,67 @@ Proof.
     rewrite mr_avail_with. unfold mr_avail. repeat split; lia.
   - split; [discriminate|]. intros _.
     destruct (mr_eof r && (len (mr_b r) =? 0)).
-    + unfold rd_post, mret. cbn [fst snd]. split; [lia|]. repeat split; auto; lia.
+    + unfold rd_post, mret. cbn [fst snd]. split; [lia|]. unfold mr_inv in *. repeat split; auto; lia.
     + unfold mr_fuel. apply mr_loop_spec; auto.
+Qed.
+
+(* ---------------- ReadValue ---------------- *)
+Definition rv_phi (bs : N) (r : mrecv) : N :=
+  mr_avail r + (if mr_sent r then bs else 3 * bs + (if (mr_tl r =? 0)%Z then 8 else 0)).
+
+Lemma len_overwrite d old : len d <= len (overwrite d old).
+Proof. unfold overwrite. rewrite len_app. lia. Qed.
+
+Definition rv_post (fixed : bool) (bs : N) (r : mrecv) (acc : bytes) (vl : N) (m : M (bytes * N * mrecv)) : Prop :=
+  snd m <= rv_phi bs r /\
+  match fst m with
+  | Ok (acc', vl', r') =>
+      mr_inv r' /\ s_final_eof (mr_s r') = s_final_eof (mr_s r) /\ mr_avail r' <= mr_avail r /\
+      vl <= vl' /\ (vl < vl' -> mr_avail r' + 1 <= mr_avail r) /\
+      vl' + mr_avail r' <= vl + mr_avail r + (if mr_sent r then 0 else bs) /\
+      (vl <= len acc -> vl' <= len acc')
+  | Err e => e <> EFuel
+  | Panic => fixed = false
+  end.
+
+Lemma rv_loop_spec fixed bs fuel : forall r chunk acc vl,
+  mr_inv r -> bs <= 281474976710656 -> mr_avail r + 1 <= N.of_nat fuel ->
+  rv_post fixed bs r acc vl (read_value_loop fixed fuel bs r chunk acc vl).
+Proof.
+  induction fuel as [|f IH]; intros r chunk acc vl HI Hbs Hf; [lia|].
+  cbn [read_value_loop].
+  pose proof (mr_read_spec fixed bs r HI Hbs) as [S1 S2]. cbv zeta in S1, S2.
+  destruct (mr_read fixed bs r) as [res al] eqn:Em. cbn [fst snd] in S1, S2.
+  unfold rv_post, rv_phi, mbind, alloc. cbn [fst snd].
+  destruct (mr_sent r) eqn:Es.
+  - destruct (S1 eq_refl) as (Z1 & r' & Z2 & Z3 & Z4 & Z5 & Z6). subst res al. cbn [fst snd mret].
+    replace (len (@nil N) =? 0) with true by reflexivity. cbn [fst snd].
+    split; [lia|]. repeat split; auto; try lia.
+    intros H. rewrite len_app. pose proof (len_overwrite [] chunk). lia.
+  - specialize (S2 eq_refl). unfold rd_post in S2. cbv zeta in S2. cbn [fst snd] in S2.
+    destruct S2 as [A0 A1].
+    destruct res as [[x r']| |]; cbn [fst snd]; [| split; [lia|exact A1] | split; [lia|exact A1]].
+    destruct A1 as (B1 & B2 & B3 & B4).
+    destruct x as [d|]; cbn [fst snd mret].
+    2:{ split; [lia|]. repeat split; auto; try lia. intros H. rewrite len_app. lia. }
+    destruct B4 as (C1 & C2 & C3).
+    destruct (N.eqb_spec (len d) 0) as [Hd|Hd]; cbn [fst snd mret].
+    { split; [lia|]. repeat split; auto; try lia. intros H. rewrite len_app. lia. }
+    assert (Hav : mr_avail r' + 1 <= mr_avail r) by (apply C1; lia).
+    specialize (IH r' (overwrite d chunk) (acc ++ overwrite d chunk) (vl + len d) B1 Hbs).
+    assert (Hf' : mr_avail r' + 1 <= N.of_nat f) by lia. specialize (IH Hf').
+    unfold rv_post, rv_phi in IH.
+    destruct (read_value_loop fixed f bs r' (overwrite d chunk) (acc ++ overwrite d chunk) (vl + len d)) as [res2 al2].
+    cbn [fst snd] in *. destruct IH as [I0 I1].
+    assert (Hal : al + (bs + al2) <= mr_avail r + (3 * bs + (if (mr_tl r =? 0)%Z then 8 else 0))).
+    { destruct C3 as [C3|(C3 & C4 & C5 & C6 & C7)]; rewrite C3 in I0.
+      - lia.
+      - destruct (Z.eqb_spec (mr_tl r') 0); [contradiction|]. lia. }
+    split; [exact Hal|].
+    destruct res2 as [[[acc' vl'] r'']| |]; auto.
+    destruct I1 as (D1 & D2 & D3 & D4 & D5 & D6 & D7).
+    split; [exact D1|]. split; [congruence|]. split; [lia|]. split; [lia|]. split; [intros; lia|].
+    split.
+    + destruct C3 as [C3|(C3 & C4 & C5 & C6 & C7)]; rewrite C3 in D6; lia.
+    + intros H. apply D7. rewrite len_app. pose proof (len_overwrite d chunk). lia.
 Qed.
